@@ -53,8 +53,17 @@ struct rbe {
     struct cstl_rbtree_node n2;
 };
 
-static struct cstl_bintree bt, bt2;      /* bt2 / rb2: the other operand of `swap` (same element pool) */
-static struct cstl_rbtree rb, rb2;
+/* bt / rb: the objects the operations address; bt2 / rb2: their swap partners (same element
+ * pool).  `swap` calls the library's swap on the two objects; `alt` only switches which OBJECT the
+ * following operations address (no library call), so both objects get used after a swap. */
+static struct cstl_bintree bt_obj[2];
+static struct cstl_rbtree rb_obj[2];
+static struct cstl_bintree * BTP = &bt_obj[0], * BTP2 = &bt_obj[1];
+static struct cstl_rbtree * RBP = &rb_obj[0], * RBP2 = &rb_obj[1];
+#define bt (*BTP)
+#define bt2 (*BTP2)
+#define rb (*RBP)
+#define rb2 (*RBP2)
 static cstl_map_t map;
 
 static struct bte btpool[NE + 1];
@@ -585,6 +594,10 @@ static void reset(void)
             h_init_mismatch = 1;
         }
     }
+    BTP = &bt_obj[0];
+    BTP2 = &bt_obj[1];
+    RBP = &rb_obj[0];
+    RBP2 = &rb_obj[1];
     H_POISON_OBJ(bt);
     H_POISON_OBJ(rb);
     H_POISON_OBJ(bt2);
@@ -857,6 +870,17 @@ static void op(int argc, char ** argv)
             cstl_bintree_swap(&bt, &bt2);
         } else {
             cstl_rbtree_swap(&rb, &rb2);
+        }
+        outf("ok");
+    } else if (!strcmp(o, "alt") && argc == 2) {
+        if (kind == K_BT) {
+            struct cstl_bintree * t = BTP;
+            BTP = BTP2;
+            BTP2 = t;
+        } else {
+            struct cstl_rbtree * t = RBP;
+            RBP = RBP2;
+            RBP2 = t;
         }
         outf("ok");
     } else if (!strcmp(o, "show") && argc == 2) {
